@@ -207,6 +207,11 @@ def rewrite_struct(item, log):
     text = strip_vis(text)
     # fields -> pub
     m = re.search(r"[({]", text)
+    if m is None:
+        # unit struct: `struct Name<..>;`
+        out = ("#[derive(%s)]\n" % ", ".join(keep) if keep else "") + "pub " + text
+        log.add("R1"); log.add("R7")
+        return out.split("\n")
     head, rest = text[:m.start()], text[m.start():]
     if rest[0] == "(":
         close = rest.rfind(")")
